@@ -1,6 +1,7 @@
 ---- MODULE VarPoolMC ----
 EXTENDS VarPoolImpl
 ReqSet == {<<"name", "foo">>, <<"name", "foo0">>, <<"name", "foo1">>, <<"name", "fooCh">>, <<"name", "fooCh0">>,
-           <<"name", "err">>, <<"name", "err0">>, <<"chan", "foo">>, <<"chan", "foo0">>, <<"name", "pkg">>, <<"name", "string">>}
+           <<"name", "err">>, <<"name", "err0">>, <<"chan", "foo">>, <<"chan", "foo0">>, <<"name", "pkg">>, <<"name", "string">>,
+           <<"name", "int3">>}   \* int3, int30, int31, then int32 is predeclared
 Pre == {"pkg", "pkg0"}
 ====
